@@ -226,12 +226,52 @@ class Minimiser(object):
 # ---------------------------------------------------------------------------
 # booter: one configuration, many runs
 # ---------------------------------------------------------------------------
+def simboot_instance_split(rng, cfg):
+  """In a quarter of the configuration groups some settings live in the instance section
+  ([cache:a] ...) of carbon.conf and the program section carries a different value for
+  them: what is in force is the instance section's value (cfg['settings'] is unchanged)."""
+  if cfg.get('daemon') not in ('cache', 'relay', 'aggregator') or rng.random() >= 0.25:
+    return
+  s = cfg.get('settings', {})
+  keys = [k for k in sorted(s) if k != 'deep_backlog' and isinstance(s[k], (bool, int, float))]
+  if not keys:
+    return
+  decoys = {}
+  for k in rng.sample(keys, min(len(keys), rng.randint(1, 3))):
+    v = s[k]
+    if isinstance(v, bool):
+      decoys[k] = not v
+    elif v == float('inf'):
+      decoys[k] = rng.choice([1, 7, 100])
+    elif isinstance(v, int):
+      decoys[k] = rng.choice([v * 3 + 5, v + 100, float('inf') if k.startswith('MAX_') else v * 2 + 1])
+    else:
+      decoys[k] = v * 2 + 1.5
+  cfg['instance_decoys'] = decoys
+
+
+def normal_form(plan):
+  """The plan exactly as a replay file gives it back (tuples become lists, sets sorted
+  lists, dict keys strings; bytes stay bytes): the event log quotes plan operations, so a
+  run and its replay must execute the same object."""
+  def nf(o):
+    if isinstance(o, dict):
+      return {(k if isinstance(k, str) else json.dumps(k)): nf(v) for k, v in o.items()}
+    if isinstance(o, (list, tuple)):
+      return [nf(x) for x in o]
+    if isinstance(o, (set, frozenset)):
+      return [nf(x) for x in sorted(o)]
+    return o
+  return nf(plan)
+
+
 def booter(mod, tier, base_seed, gi, nruns, opts):
   out = {'runs': 0, 'nontrivial': 0, 'digests': [], 'nt_digests': [], 'probes': {}, 'faults': {},
          'violations': [], 'harness_errors': [], 'sim_seconds': 0.0, 'steps': 0,
          'sigs': [], 'samples': [], 'notes': [], 'cfg_sig': None, 'ends': {}}
   cfg_seed = derive_seed(base_seed, mod.PROP, tier, 'cfg', gi)
   cfg = mod.gen_config(stream(cfg_seed, 'config'), tier)
+  simboot_instance_split(stream(cfg_seed, 'instance'), cfg)
   out['cfg_sig'] = mod.cfg_sig(cfg) if hasattr(mod, 'cfg_sig') else jdump(cfg)[:200]
   try:
     w = mod.boot(cfg)
@@ -292,21 +332,29 @@ def booter(mod, tier, base_seed, gi, nruns, opts):
   enum_every = getattr(mod, 'ENUM_EVERY', {}).get(tier)
   for ri in range(nruns):
     seed = derive_seed(base_seed, mod.PROP, tier, 'run', gi, ri)
-    plan = mod.gen_plan(stream(seed, 'plan'), cfg, tier)
+    plan = normal_form(mod.gen_plan(stream(seed, 'plan'), cfg, tier))
     chspec = {'seed': derive_seed(seed, 'sched'), 'p_preempt': plan.get('p_preempt', 0.0),
               'p_tie': plan.get('p_tie', 0.5), 'pct_points': plan.get('pct_points')}
     res = run_child(w, mod, plan, chspec)
     ok = absorb(seed, plan, res)
+    if ok and opts.get('collect'):
+      # self-test: the schedule a run recorded, executed without any PRNG draw on the plan
+      # as a replay file would store it, must be the same execution
+      rep = run_child(w, mod, normal_form(plan), {'explicit': res['choices']})
+      out['collected'][-1]['replay_digest'] = rep.get('digest', rep.get('harness_error', '?')[-200:])
     if ok and enum_every and ri % enum_every == 0 and hasattr(mod, 'enumerate_variants'):
       # fault / crash-point enumeration relative to this seeded base run: the same plan
       # is re-executed once per placement, from the schedule the base run recorded
       base = mod.enumeration_base(plan) if hasattr(mod, 'enumeration_base') else plan
+      if base is not plan:
+        base = normal_form(base)
       bres = res
       if base is not plan:
         bres = run_child(w, mod, base, chspec)
         if not absorb(seed, base, bres, enumerated=True):
           continue
       for vplan in mod.enumerate_variants(base, bres, stream(seed, 'enum'), tier):
+        vplan = normal_form(vplan)
         vres = run_child(w, mod, vplan, {'explicit': bres['choices']})
         absorb(seed, vplan, vres, enumerated=True)
   out['sigs'] = sorted(sigs)
